@@ -821,6 +821,10 @@ class Model:
 
         self.equations[equation] = lambda_method
 
+        # a changed equation invalidates the memoised values of all equations that depend on it
+        for name in self.memo:
+            self.memo[name] = {}
+
         # Initialize memo for equation
         self.memo[equation] = {}
 
